@@ -156,11 +156,29 @@ def run(tier):
         lines.append("GEN %d %d %d %d %s %d %d %d %d" % (rng.choice([10, 12, 17, 20]), rng.choice([3, 4, 5, 6, 7]), rng.choice([0, 1]), rng.choice([0, 1, 2]),
                      rng.choice(["text", "mix", "records", "blockdup", "straddle", "edge", "longmatch", "period", "rle", "zero"]), rng.choice([0, 1, 100, 5000, 131072, 131073, 300000]),
                      rng.randint(1, 99999), rng.choice([1, 3, 7]), rng.choice([1, 3, 5, 9, 13, 16])))
+    # ---- life of the dictionary's offset-code table (valid -> check), with the two faulty variants that must be rejected
+    rd = core.run_tlc("DictTables", "DictTables.cfg", tag="c17-dt", timeout=300)
+    ck.model("DictTables (dictionary offset-code table: 'valid' only for the first block, whichever way it was emitted)", rd, {})
+    re_ = core.run_tlc("DictTables", "DictTables_edge.cfg", tag="c17-dte", timeout=300)
+    ck.model("DictTables (content size 2^17-2: a 5-byte first block moves the next block across a code boundary)", re_, {})
+    for r in (rd, re_):
+        if r.violated:
+            ck.warn("DictTables.tla: %s violated (specification-level)" % r.invariant_violated)
+    for cfg in ("DictTables_mutComp.cfg", "DictTables_mutTiny.cfg"):
+        rm = core.run_tlc("DictTables", cfg, tag="c17-dtm", timeout=300)
+        ck.model("DictTables mutation %s (expected to violate NeverAnUncoveredSymbol)" % cfg, rm, {"violated": rm.invariant_violated})
+        if rm.invariant_violated != "NeverAnUncoveredSymbol":
+            ck.warn("mutation config %s was not rejected: NeverAnUncoveredSymbol is vacuous" % cfg)
+    # the two counterexamples of the mutation configurations, as cases: raw first block(s), and a 5-byte first block with content size 2^17-2
+    for lv in (1, 3):
+        for cd in (0, 1):
+            lines.append("DSEQ %d 1 1 131070 300000 %d 0 %d -1" % (lv, rng.randint(1, 99999), cd))
+            lines.append("DSEQ %d %d 1 8192 400000 %d 0 %d %d" % (lv, rng.choice([0, 1]), rng.randint(1, 99999), cd, rng.choice([1, 2])))
     # ---- formatted dictionary (entropy tables) + multi-block parses whose later blocks need offset codes the dictionary's table lacks
     for i in range(24 if tier == "quick" else 400):
         dcs = rng.choice([4096, 8192, 8192, 20000, 65536])
         lines.append("DSEQ %d %d %d %d %d %d %d %d %d" % (rng.choice([1, 1, 2, 3, 3, 4, 5, 7]), rng.choice([0, 1]), rng.choice([0, 1]), dcs, rng.choice([300000, 400000, 530000]),
-                     rng.randint(1, 99999), rng.choice([0, 1, 2]), rng.choice([0, 1]), rng.choice([0, 0, 1, 2])))
+                     rng.randint(1, 99999), rng.choice([0, 1, 2]), rng.choice([0, 1]), rng.choice([0, 0, 1, 2, -1, -2])))
     # ---- external producer: exact sequence counts per block, failure with and without fallback
     for i in range(60 if tier == "quick" else 800):
         lines.append("PROD %d %d %s %d %d %d %d %d %d" % (rng.choice([17, 18]), rng.choice([1, 3, 5, 9]), rng.choice(["text", "mix", "records", "rle", "period", "longrep"]),
